@@ -364,7 +364,8 @@ def exec (c : Cfg α) (s : St α) : St α :=
       let s := emit s (.write s.wr.length) (.err e)
       if e = EINTR then (if s.userAbort then ioFail c s else s)
       else if e = EAGAIN then { s with pc := .writePoll }
-      else if e = EPIPE then ioFail c s
+      -- EPIPE: no message (SIGPIPE normally comes with it), but `set_exit_status(E_ERROR)` (fix fad6dfb)
+      else if e = EPIPE then ioFail c (msgError s)
       else ioFail c (msgError s)
     | none =>
       let n := count f s.wr.length
